@@ -61,4 +61,12 @@ theorem default_uses (p : Bool) :
     Use.loadDefault p = .load p Gen.C06_LOAD_MPQ Gen.C06_LOAD_MERGE ∧
     Use.loadPerfDefault p = .loadPerf p Gen.C06_LP_MPQ Gen.C06_LP_MERGE Gen.C06_LP_FNZ := ⟨rfl, rfl⟩
 
+/-- round 6 — the sort keys read from the live source (`ast`) are the keys of the model: the loaded notes are put
+    in order, and numbered, by (note_on, midi_pitch, note_off, channel, track) — `secLe` / `KeyLe`, the track
+    being the same within a part — AFTER `adjust_time` has assigned the final seconds (fixes/C06-8: `loadFileS`
+    sorts by the final seconds); the saver writes the notes by (note_on, note_off) — `noteLe` -/
+theorem sort_keys_generated :
+    Gen.C06_SORT_KEY = ["note_on", "midi_pitch", "note_off", "channel", "track"] ∧
+    Gen.C06_SORT_AFTER_ADJUST = true ∧ Gen.C06_WRITE_KEY = ["note_on", "note_off"] := by decide
+
 end C06
